@@ -375,6 +375,8 @@ func VH_C03_Possessive()     { vhC03(vhDefPossessive()) }
 func VH_C03_ReturnNested() { vhC03(vhDefReturnNested()) }
 func VH_C03_ReturnSelf()   { vhC03(vhDefReturnSelf()) }
 
+func VH_C03_ElidedActions() { vhC03(vhDefElidedActions()) }
+
 func VH_C03_Canary() {
 	in := vhInput()
 	_, toks, err := vhRunImpl(vhDefLiteral(), in)
@@ -419,6 +421,7 @@ func VH_C04_Canary() {
 	vAssert(p.Column == 3, "canary: must fail")
 }
 
+func VH_C07_Run_ElidedActions()  { vhC07Run(vhDefElidedActions()) }
 func VH_C07_Run_Literal()        { vhC07Run(vhDefLiteral()) }
 func VH_C07_Run_EmptyRule()      { vhC07Run(vhDefEmptyRule()) }
 func VH_C07_Run_PushPop()        { vhC07Run(vhDefPushPop()) }
